@@ -17,6 +17,7 @@ import (
 	"go/ast"
 	"go/parser"
 	"go/token"
+	"go/types"
 	"os"
 	"path/filepath"
 	"sort"
@@ -88,6 +89,90 @@ type pkgInfo struct {
 	methods map[string]bool              // Type.method
 	globals map[string]string            // package-level var -> type expr ("" unknown)
 	rets    map[string]string            // function / Type.method -> first result type (without *), when a struct of this package
+	// field selections resolved by the type checker (go/types over the package's anchored files, imports stubbed):
+	// selector expression -> "pkg.Type.field" for fields of named struct types of this package
+	tsel map[*ast.SelectorExpr]string
+}
+
+// stubImporter satisfies imports with empty packages: everything declared IN the package (receivers, struct fields,
+// embedded structs, local variables of package types, results of package functions) is resolved by the type checker;
+// expressions of foreign types stay unresolved (errors are ignored) and fall back to the syntactic rules.
+type stubImporter struct{ pkgs map[string]*types.Package }
+
+func (s *stubImporter) Import(path string) (*types.Package, error) {
+	if p, ok := s.pkgs[path]; ok {
+		return p, nil
+	}
+
+	name := path
+	if i := strings.LastIndex(name, "/"); i >= 0 {
+		name = name[i+1:]
+	}
+
+	p := types.NewPackage(path, name)
+	p.MarkComplete()
+	s.pkgs[path] = p
+
+	return p, nil
+}
+
+var tcStats = struct{ typed, syntactic, disagree int }{} //nolint:gochecknoglobals
+
+func typeCheck(fset *token.FileSet, name string, files []*ast.File) map[*ast.SelectorExpr]string {
+	info := &types.Info{Selections: map[*ast.SelectorExpr]*types.Selection{}}
+	conf := types.Config{Importer: &stubImporter{pkgs: map[string]*types.Package{}}, Error: func(error) {}, DisableUnusedImportCheck: true}
+	pkg, _ := conf.Check(name, fset, files, info)
+	res := map[*ast.SelectorExpr]string{}
+
+	if pkg == nil {
+		return res
+	}
+
+	for sel, s := range info.Selections {
+		if s.Kind() != types.FieldVal {
+			continue
+		}
+
+		v, ok := s.Obj().(*types.Var)
+		if !ok || !v.IsField() || v.Pkg() != pkg {
+			continue
+		}
+
+		// the struct that declares the field: walk the selection path from the receiver type
+		t := s.Recv()
+		idx := s.Index()
+
+		var owner string
+
+		for k, i := range idx {
+			if p, ok := t.(*types.Pointer); ok {
+				t = p.Elem()
+			}
+
+			named, _ := t.(*types.Named)
+
+			st, ok := t.Underlying().(*types.Struct)
+			if !ok {
+				owner = ""
+
+				break
+			}
+
+			if k == len(idx)-1 {
+				if named != nil && named.Obj().Pkg() == pkg {
+					owner = named.Obj().Name()
+				}
+			}
+
+			t = st.Field(i).Type()
+		}
+
+		if owner != "" {
+			res[sel] = name + "." + owner + "." + v.Name()
+		}
+	}
+
+	return res
 }
 
 func exprStr(e ast.Expr) string {
@@ -156,6 +241,28 @@ func (w *walker) lockName(x ast.Expr) string {
 
 // fieldOf resolves x.f to "pkg.Type.f" when f is a field of a struct of this package.
 func (w *walker) fieldOf(e *ast.SelectorExpr) string {
+	syn := w.fieldOfSyntactic(e)
+
+	if t, ok := w.p.tsel[e]; ok {
+		tcStats.typed++
+
+		if syn != "" && syn != t {
+			tcStats.disagree++
+
+			fmt.Fprintf(os.Stderr, "c13gen: %s: syntactic resolution %s, type checker %s\n", exprStr(e), syn, t)
+		}
+
+		return t
+	}
+
+	if syn != "" {
+		tcStats.syntactic++
+	}
+
+	return syn
+}
+
+func (w *walker) fieldOfSyntactic(e *ast.SelectorExpr) string {
 	f := e.Sel.Name
 	if id, ok := e.X.(*ast.Ident); ok && id.Name == w.recv {
 		if _, ok := w.p.structs[w.rtype][f]; ok {
@@ -526,6 +633,8 @@ func main() {
 
 	var sends []string // channel sends: function, channel expression, inside a select with an alternative?
 
+	var requesters []string // rendezvous requesters: function, registers its channel before it sends the request?
+
 	mutable := map[string]bool{}
 
 	for _, d := range dirs {
@@ -611,6 +720,8 @@ func main() {
 			}
 		}
 
+		p.tsel = typeCheck(fset, p.name, files)
+
 		for _, af := range files {
 			for _, decl := range af.Decls {
 				fd, ok := decl.(*ast.FuncDecl)
@@ -648,6 +759,35 @@ func main() {
 
 					return true
 				})
+
+				// requesters of a rendezvous: the function makes a channel, registers it (a call of a set...Ch method of
+				// the package with that channel) and sends a request through the outbound dispatcher: is the registration
+				// textually before the send (a response may arrive as soon as the request is out)?
+				var regPos, sendPos token.Pos
+
+				ast.Inspect(fd.Body, func(n ast.Node) bool {
+					c, ok := n.(*ast.CallExpr)
+					if !ok {
+						return true
+					}
+
+					if sel, ok := c.Fun.(*ast.SelectorExpr); ok {
+						nm := sel.Sel.Name
+						if strings.HasPrefix(nm, "set") && strings.HasSuffix(nm, "Ch") && len(c.Args) == 2 && exprStr(c.Args[1]) != "nil" && regPos == 0 {
+							regPos = c.Pos()
+						}
+
+						if nm == "SendToDID" && sendPos == 0 {
+							sendPos = c.Pos()
+						}
+					}
+
+					return true
+				})
+
+				if regPos != 0 && sendPos != 0 {
+					requesters = append(requesters, fmt.Sprintf("(%s, %v)", coqStr(name), regPos < sendPos))
+				}
 
 				ast.Inspect(fd.Body, func(n ast.Node) bool {
 					if snd, ok := n.(*ast.SendStmt); ok {
@@ -747,6 +887,17 @@ func main() {
 
 	b.WriteString("].\n\n(* every channel send statement of the anchored files: function, channel, inside a select with an alternative *)\n")
 	b.WriteString("Definition chan_sends : list (string * string * bool) := [\n  " + strings.Join(sends, ";\n  ") + "\n].\n")
+
+	b.WriteString("\n(* functions that register a response channel and send a request: is the registration before the send? *)\n")
+	b.WriteString("Definition requesters : list (string * bool) := [\n  " + strings.Join(requesters, ";\n  ") + "\n].\n")
+
+	fmt.Fprintf(&b, "\n(* field selections resolved by the type checker (go/types, imports stubbed) / by the syntactic rules only *)\nDefinition resolution_stats : list nat := [%d; %d].\n",
+		tcStats.typed, tcStats.syntactic)
+
+	if tcStats.disagree > 0 {
+		fmt.Fprintf(os.Stderr, "c13gen: %d field selections are resolved differently by the type checker and by the syntactic rules\n", tcStats.disagree)
+		os.Exit(1)
+	}
 
 	if err := os.WriteFile(out, []byte(b.String()), 0o600); err != nil {
 		fmt.Fprintln(os.Stderr, err)
